@@ -28,11 +28,13 @@ def _known():
 
 RX_FORLOOP = re.compile(r'\b(FOR|WHILE)\b(?:(?!\bDO\b).)*?\bLOOP\b', re.I | re.S)
 RX_ENDCASE = re.compile(r'\bEND\s+CASE\b', re.I)
+RX_KW_DOT = re.compile(r'\b(IF|WHILE|FOR|FOREACH|CASE|BEGIN|DECLARE|LOOP|END)(\s*\.|\()', re.I)
 RX_DECL_BEFORE_BEGIN = re.compile(r'\bCREATE\b(?:(?!\bBEGIN\b).)*\bDECLARE\b', re.I | re.S)
 CLASS_PRED = {
     'for-while-loop-end-loop': lambda s: bool(RX_FORLOOP.search(s)),
     'end-case-statement': lambda s: bool(RX_ENDCASE.search(s)),
     'declare-before-begin': lambda s: bool(RX_DECL_BEFORE_BEGIN.search(s)),
+    'block-keyword-before-dot-or-paren': lambda s: bool(RX_KW_DOT.search(s)),
 }
 
 
